@@ -70,6 +70,7 @@ type c12Fix struct {
 	tbTrunc, tjTrunc, pbTrunc  []byte
 	tjMissing                  []byte
 	paths                      [][]generic.Path
+	npaths, npathsCopy         [][]generic.Path // name-addressed paths shared by all goroutines (caller's input, read-only)
 	traps                      []*h.Trap
 }
 
@@ -432,6 +433,20 @@ func (f *c12Fix) ops() []c12Op {
 			}
 			return "ok:" + h.Sha([]byte(sb.String())), nil
 		}},
+		{"thrift.Value.GetByPath(name)", func(d *c12Descs) (string, []byte) {
+			// the path slices are the caller's: shared by every goroutine and compared with a copy afterwards
+			var sb strings.Builder
+			val := generic.NewValue(d.t, f.tb)
+			for _, p := range f.npaths {
+				x := val.GetByPath(p...)
+				if x.IsError() {
+					sb.WriteString("E;")
+					continue
+				}
+				sb.WriteString(h.Sha(x.Raw()) + ";")
+			}
+			return "ok:" + h.Sha([]byte(sb.String())), nil
+		}},
 		{"thrift.PathNode.Load+Marshal", func(d *c12Descs) (string, []byte) {
 			t := generic.PathNode{Node: generic.NewNode(thrift.STRUCT, f.tb)}
 			if err := t.Load(true, gopts()); err != nil {
@@ -567,6 +582,8 @@ func c12Fixture(cs *h.Case) *c12Fix {
 	tj := RenderJSON(cs.R, v, f.root, JSpell{}, JOpts{})
 	for _, p := range allPaths(v, 5) {
 		f.paths = append(f.paths, toGenericPath(p, f.root, false))
+		f.npaths = append(f.npaths, toGenericPath(p, f.root, true))
+		f.npathsCopy = append(f.npathsCopy, toGenericPath(p, f.root, true))
 	}
 	psc := gen.GenPSchema(cs.R, gen.PCfg{MaxDepth: 2, MaxFields: 5, Enums: true})
 	pc, err := PCompile(psc)
@@ -694,6 +711,14 @@ func runC12(c *h.Ctx) {
 			if !seen[w.op] {
 				seen[w.op] = true
 				cs.Viol("conc:result-differs-from-solo:"+w.op, "got", w.got, "want", w.want, "goroutines", G)
+			}
+		}
+		for i := range f.npaths {
+			for k := range f.npaths[i] {
+				if f.npaths[i][k].Type() != f.npathsCopy[i][k].Type() || f.npaths[i][k].String() != f.npathsCopy[i][k].String() {
+					cs.Viol("conc:input-path-modified", "path", i, "step", k, "now", f.npaths[i][k].String(), "was", f.npathsCopy[i][k].String())
+					break
+				}
 			}
 		}
 		if a, b, c2, d := c12DumpThrift(shared.t), c12DumpThrift(shared.hreq), c12DumpThrift(shared.hresp), c12DumpProto(shared.p); a != dumpT || b != dumpH || c2 != dumpR || d != dumpP {
